@@ -166,6 +166,19 @@ example : AdaptaVerif.Model.Bends.orthogonalDirection ⟨0, 0⟩ ⟨1, 0⟩ = Ad
     AdaptaVerif.Spec.OrthPath.Dir.S ≠ AdaptaVerif.Spec.OrthPath.Dir.E.rev ∧ (⟨1, 2⟩ : Pt) ≠ ⟨3, 4⟩ := by
   decide +kernel
 
+/-- The same for the heuristic the search actually uses, `AStarPathPrivate::estimatedCost` = minimum over
+    ALL cost targets of (`estimatedCostSpecific` + displacement), on every graph and every hop with a
+    single heading that neither doubles back nor ends at the point of a cost target.  (The driver
+    evaluates the remaining cases on libavoid's real graphs: `astar.estimator-consistent-off-known-kinds`.) -/
+theorem heuristic_consistent_off_cost_targets (g : Graph) (hpen : 0 < g.segPen) (last curr next : Pt)
+    (cd nd : AdaptaVerif.Spec.OrthPath.Dir)
+    (hcd : AdaptaVerif.Model.Bends.orthogonalDirection last curr = cd.mask)
+    (hnd : AdaptaVerif.Model.Bends.orthogonalDirection curr next = nd.mask)
+    (hnr : nd ≠ cd.rev) (hnt : ∀ ct ∈ costTargets g, next ≠ g.pt ct.1) :
+    ∃ e1 e2, estimatedCost g (some last) curr = some e1 ∧ estimatedCost g (some curr) next = some e2 ∧
+      e1 ≤ AdaptaVerif.Model.Bends.manhattanDist curr next + (if nd = cd then 0 else g.segPen) + e2 :=
+  Lemmas.AStarEstimate.estimatedCost_consistent g hpen last curr next cd nd hcd hnd hnr hnt
+
 /-! ### tie to the source: kernels regenerated from makepath.cpp / graph.cpp on every run -/
 
 /-- `ANodeCmp::operator()` as generated from makepath.cpp (job `astar`) is the model's `worse` with the
